@@ -144,7 +144,11 @@ def import_rewrite(i: int, gen: int, extra: bool) -> bool:
     targets = AbstractCodeGen.convertImportv2[mod][sym]
     imports = {mod: [sym]}
     if extra:
-        imports[mod].append('somethingElse')
+        # a symbol without an SMIv2 home stands before (odd i) or after (even i) the convertible one in the same FROM list
+        if i % 2:
+            imports[mod].insert(0, 'somethingElse')
+        else:
+            imports[mod].append('somethingElse')
         imports['OTHER-MIB'] = ['foo']
     g = (_symtable.SymtableCodeGen, _intermediate.IntermediateCodeGen, _pysnmp.PySnmpCodeGen)[gen]()
     out, mods = g.genImports(imports)
